@@ -18,6 +18,10 @@
 (*   lstring  the `string` library table            every top-level #invoke  *)
 (*   lsmeta   the string metatable                  (see Dev)                *)
 (*   lretain  tables of retained mw libraries        (see Dev)                *)
+(*   lobjects objects HANDED OUT by the constructors of the retained         *)
+(*            libraries (mw.title.new / makeTitle / getCurrentTitle /         *)
+(*            subPageTitle, mw.language.new, mw.html.create, mw.message.new): *)
+(*            every request builds a new object      (round 9; see Dev)       *)
 (*   memo     get_page memo                          add_page (coherent)      *)
 (*   tags     allowed HTML tag table                 per context (see Dev)    *)
 (* OPTIONS OF ONE CALL (round 8): the arguments of expand() / parse() are cells  *)
@@ -46,12 +50,14 @@ CONSTANT Dev   \* deviations: "ExtensionTagsShared", "StringMetatableShared", "R
                \* (classes of seeded changes, never as-is:) "TimeLimitKept": a top-level #invoke whose call gives no
                \*    (acceptable) timeout runs under the limit an earlier call left in the Lua runtime;
                \*    "CallOptionsKept": an argument not given to a call keeps the value an earlier call was given
+               \*    "HandedOutObjectsMemoised": a constructor of a retained library hands out the object it built for an
+               \*    earlier request again (kept in the library, which no reset reaches)
 
 \* options of one call
 CallOptCells == {"oinvoke", "oparserfns", "opreexpand", "otmplsets", "otmplfns", "oexpandall", "oquiet"}
 OptCells == CallOptCells \cup {"otimelimit"}
 Cells == {"parser", "cookies", "path", "msgs", "strip", "luastk", "lglobal", "lloaded", "ldata",
-          "lstring", "lsmeta", "lretain", "memo", "tags"} \cup OptCells
+          "lstring", "lsmeta", "lretain", "lobjects", "memo", "tags"} \cup OptCells
 
 \* round 8: kinds about the options of a call
 OptWriters == {"optTimeLimit", "optNoInvoke", "optNoParserFns", "optPreExpand", "optTemplateSets", "optTemplateFns", "optQuiet",
@@ -61,7 +67,7 @@ OptKinds == OptWriters \cup {"optProbe", "optParseProbe", "slowModule"}
 SlowKinds == {"slowModule", "luaTimeout"}
 \* page kinds (the harness has one concrete page per kind)
 Kinds == {"unclosedMarkup", "unclosedTable", "preTag", "manyCalls", "templateLoop", "sectionError", "templateNowiki",
-          "luaGlobal", "luaString", "luaStringMeta", "luaRequired", "luaRetained", "luaLoadData", "luaLoadJson",
+          "luaGlobal", "luaString", "luaStringMeta", "luaRequired", "luaRetained", "luaHandedOut", "luaLoadData", "luaLoadJson",
           "luaStripMarker", "luaError", "luaTimeout", "parseExpandAll", "otherContextWithExtTags", "otherContextRedefiningTag", "extTagPage"}
          \cup OptKinds
 
@@ -84,7 +90,7 @@ OptionsOf(k) ==
 \* kinds whose call reaches a top-level #invoke (the probe text has one; not when the options keep #invoke unexpanded)
 OptLua(k) == k \in OptKinds \ {"optNoInvoke", "optNoParserFns", "optAll", "optParseProbe"}
 OptParse(k) == k \in {"optParsePreExpand", "optParseHooks", "optParseProbe"}
-IsLua(k) == OptLua(k) \/ k \in {"luaGlobal", "luaString", "luaStringMeta", "luaRequired", "luaRetained", "luaLoadData", "luaLoadJson",
+IsLua(k) == OptLua(k) \/ k \in {"luaGlobal", "luaString", "luaStringMeta", "luaRequired", "luaRetained", "luaHandedOut", "luaLoadData", "luaLoadJson",
                    "luaStripMarker", "luaError", "luaTimeout"}
 IsParse(k) == OptParse(k) \/ k \in {"unclosedMarkup", "unclosedTable", "preTag", "parseExpandAll", "extTagPage"}
 
@@ -107,6 +113,8 @@ BaseReads(k) ==
     [] k = "luaStringMeta" -> {"cookies", "path", "msgs", "luastk", "lsmeta"}
     [] k = "luaRequired" -> {"cookies", "path", "msgs", "luastk", "lloaded", "memo"}
     [] k = "luaRetained" -> {"cookies", "path", "msgs", "luastk", "lretain"}
+    \* luaHandedOut: obtains an object from every constructor, reports its writable fields, then writes them
+    [] k = "luaHandedOut" -> {"cookies", "path", "msgs", "luastk", "lobjects", "memo"}
     [] k \in {"luaLoadData", "luaLoadJson"} -> {"cookies", "path", "msgs", "luastk", "ldata", "memo"}
     [] k = "luaStripMarker" -> {"cookies", "path", "msgs", "luastk", "strip"}
     [] k \in {"luaError", "luaTimeout"} -> {"cookies", "path", "msgs", "luastk"}
@@ -128,6 +136,7 @@ Writes(k) ==
           [] k = "luaStringMeta" -> {"lsmeta"}
           [] k = "luaRequired" -> {"lloaded"}
           [] k = "luaRetained" -> {"lretain"}
+          [] k = "luaHandedOut" -> {"lobjects"}
           [] k \in {"luaLoadData", "luaLoadJson"} -> {"ldata"}
           [] k = "luaStripMarker" -> {"strip"}
           [] k \in {"otherContextWithExtTags", "otherContextRedefiningTag"} -> IF "ExtensionTagsShared" \in Dev THEN {"tags"} ELSE {}
@@ -146,6 +155,8 @@ Resets(k) ==
   \cup (IF IsLua(k) THEN {"lglobal", "lloaded", "lstring"}
                          \cup (IF "StringMetatableShared" \in Dev THEN {} ELSE {"lsmeta"})
                          \cup (IF "RetainedLibraryTablesShared" \in Dev THEN {} ELSE {"lretain"})
+                         \* a constructor builds a new object for every request: nothing written into an earlier one is met
+                         \cup (IF "HandedOutObjectsMemoised" \in Dev THEN {} ELSE {"lobjects"})
                          \* _lua_set_timeout: the limit of this call, or the default when the call gives none
                          \cup (IF "TimeLimitKept" \in Dev /\ "otimelimit" \notin OptionsOf(k) THEN {} ELSE {"otimelimit"})
         ELSE {})
